@@ -503,3 +503,72 @@ Theorem read_eof_closes_read_error_is_silent w i ev :
 Proof.
   intros Hr Hi. split; intros He; cbn [step]; unfold reports_remote_close; rewrite Hr, Hi, He; reflexivity.
 Qed.
+
+(* ---- OpenStream racing Close ---- *)
+(* the base world under the layer is a base run: every base invariant carries over *)
+Lemma ob_winv fixed sch : forall w, WInv (ob w) -> WInv (ob (orun fixed sch w)).
+Proof.
+  unfold orun. induction sch as [|l sch IH]; intros w W; cbn; [assumption|]. apply IH.
+  destruct l as [b|i|i]; cbn [ostep].
+  - cbn. apply step_inv. assumption.
+  - destruct (nth_error (ss (ob w)) i) as [s|]; [destruct (sd s)|]; assumption.
+  - destruct (remove_one i (opening w)) as [op'|]; [|assumption].
+    destruct (nth_error (ss (ob w)) i) as [s|]; [|assumption].
+    destruct (cleaned s); [destruct fixed|destruct (sd s)]; assumption.
+Qed.
+
+(* with the repaired OpenStream no call panics, whatever the interleaving of checks, registrations,
+   Close / exitErr / remote close, cleanups and everything else *)
+Theorem open_after_close_safe sch : panics (orun true sch oinit) = O.
+Proof.
+  assert (G : forall w, panics w = O -> panics (orun true sch w) = O).
+  { unfold orun. induction sch as [|l sch IH]; intros w H; cbn; [assumption|]. apply IH.
+    destruct l as [b|i|i]; cbn [ostep].
+    - assumption.
+    - destruct (nth_error (ss (ob w)) i) as [s|]; [destruct (sd s)|]; assumption.
+    - destruct (remove_one i (opening w)) as [op'|]; [|assumption].
+      destruct (nth_error (ss (ob w)) i) as [s|]; [|assumption].
+      destruct (cleaned s); [|destruct (sd s)]; assumption. }
+  apply G. reflexivity.
+Qed.
+
+(* a registration that finds the table dropped returns the shutdown error and changes nothing else *)
+Theorem open_reg_on_dropped_table w i s op' :
+  remove_one i (opening w) = Some op' -> nth_error (ss (ob w)) i = Some s -> cleaned s = true ->
+  let w' := ostep true w (OReg i) in
+  ob w' = ob w /\ late w' = late w /\ open_errs w' = S (open_errs w) /\ panics w' = panics w /\ opening w' = op'.
+Proof. intros H1 H2 H3. cbn. rewrite H1, H2, H3. cbn. auto. Qed.
+
+(* the check itself refuses once shutdown is set *)
+Theorem open_chk_after_close w i s : nth_error (ss (ob w)) i = Some s -> sd s = true ->
+  let w' := ostep true w (OChk i) in opening w' = opening w /\ open_errs w' = S (open_errs w).
+Proof. intros H1 H2. cbn. rewrite H1, H2. cbn. auto. Qed.
+
+(* a stream registered late never outlives the cleanup: no late stream belongs to a session whose
+   table was dropped *)
+Theorem late_streams_closed_by_cleanup fixed sch j :
+  In j (late (orun fixed sch oinit)) -> table_dropped (ob (orun fixed sch oinit)) j = false.
+Proof.
+  assert (G : forall w, (forall k, In k (late w) -> table_dropped (ob w) k = false) ->
+                        forall k, In k (late (orun fixed sch w)) -> table_dropped (ob (orun fixed sch w)) k = false).
+  { unfold orun. induction sch as [|l sch IH]; intros w H; cbn; [assumption|]. apply IH.
+    destruct l as [b|i|i]; cbn [ostep].
+    - cbn. intros k Hk. apply filter_In in Hk. destruct Hk as [_ Hk]. apply negb_true_iff in Hk. assumption.
+    - destruct (nth_error (ss (ob w)) i) as [s|]; [destruct (sd s)|]; cbn; assumption.
+    - destruct (remove_one i (opening w)) as [op'|]; [|assumption].
+      destruct (nth_error (ss (ob w)) i) as [s|] eqn:E; [|assumption].
+      destruct (cleaned s) eqn:Ec; [destruct fixed; cbn; assumption|].
+      destruct (sd s); cbn; [|assumption].
+      intros k [<-|Hk]; [unfold table_dropped; rewrite E; assumption|auto]. }
+  apply G. intros k [].
+Qed.
+
+(* the unrepaired OpenStream (fixed = false): regression witness — a thread passes the check, the session
+   is closed and cleaned up, the thread registers: assignment to entry in nil map *)
+Definition open_race_witness : list olabel :=
+  [OBase (LOpen 1 2 1); OChk 0; OBase (LClose 0); OBase (LLambda 0); OReg 0].
+Lemma open_racing_close_unrepaired_panics : ~ (forall sch, panics (orun false sch oinit) = O).
+Proof. intros F. specialize (F open_race_witness). vm_compute in F. discriminate. Qed.
+Lemma open_race_witness_repaired :
+  let w := orun true open_race_witness oinit in panics w = O /\ open_errs w = 1%nat /\ opening w = [] /\ late w = [].
+Proof. vm_compute. repeat split. Qed.
